@@ -1,6 +1,6 @@
 import FitProps.WireLemmas
 import FitModel.FitFormat
-/-! The decoder's framing (Fit.Wire.decodeRecords) refines the independent framing spec
+/-! The decoder's framing (Fit.Wire.decodeRecordsF) refines the independent framing spec
 (Fit.FitFormat.parseRecords): whenever the decoder model parses records that cover a byte range exactly,
 the spec parses the same range into as many records. Used by C02 (every encoder output is well-formed). -/
 namespace Fit.Bridge
@@ -142,17 +142,17 @@ theorem takeFields_spec : ∀ (fds : List FieldDef) (bs : Bytes) (fs : List (Fie
         rw [← i2, List.drop_drop]
 
 theorem takeDevs_spec : ∀ (fds : List DevDef) (bs : Bytes) (fs : List (DevDef × Bytes)) (rest : Bytes),
-    takeDevs fds bs = .ok (fs, rest) → sumD fds ≤ bs.length ∧ bs.drop (sumD fds) = rest := by
+    takeDevsF fds bs = .ok (fs, rest) → sumD fds ≤ bs.length ∧ bs.drop (sumD fds) = rest := by
   intro fds
   induction fds with
-  | nil => intro bs fs rest h; simp [takeDevs] at h; simp [sumD, h.2]
+  | nil => intro bs fs rest h; simp [takeDevsF] at h; simp [sumD, h.2]
   | cons fd fds ih =>
     intro bs fs rest h
-    simp only [takeDevs] at h
+    simp only [takeDevsF] at h
     by_cases hl : bs.length < fd.size
     · simp [hl] at h
     · simp only [hl, if_false] at h
-      cases hp : takeDevs fds (bs.drop fd.size) with
+      cases hp : takeDevsF fds (bs.drop fd.size) with
       | error e => simp [hp] at h
       | ok p =>
         obtain ⟨fs', r⟩ := p
@@ -173,7 +173,7 @@ theorem lookup_of_defs {s s' : DecState} (h : s'.defs = s.defs) (i : Nat) : s'.l
   simp [DecState.lookup, h]
 
 theorem record_spec (tsKnown : Nat → Bool) (s : DecState) (bs : Bytes) (it : Item) (s' : DecState) (rest : Bytes)
-    (h : decodeRecord tsKnown s bs = .ok (it, s', rest)) (defs : FitFormat.Defs) (hrel : Rel s defs) (off : Nat) :
+    (h : decodeRecordF tsKnown s bs = .ok (it, s', rest)) (defs : FitFormat.Defs) (hrel : Rel s defs) (off : Nat) :
     ∃ hd tl, bs = hd :: tl ∧
      ((FitFormat.isDefinition hd = true ∧ ∃ r, FitFormat.parseDefinition hd off tl = some (r, rest) ∧
         Rel s' (defs.set r.localNum (FitFormat.sizeSum r.fields + FitFormat.sizeSum r.devFields))) ∨
@@ -183,7 +183,7 @@ theorem record_spec (tsKnown : Nat → Bool) (s : DecState) (bs : Bytes) (it : I
   | hd :: tl, h =>
     refine ⟨hd, tl, rfl, ?_⟩
     obtain ⟨f1, f2, f3, f4⟩ := hdr_facts hd
-    simp only [decodeRecord] at h
+    simp only [decodeRecordF] at h
     by_cases hdef : (hd &&& 0xC0 == 0x40) = true
     · left
       rw [f1] at hdef
@@ -263,7 +263,7 @@ theorem record_spec (tsKnown : Nat → Bool) (s : DecState) (bs : Bytes) (it : I
         | ok q =>
           obtain ⟨fs, bs1⟩ := q
           simp only [htf] at h
-          cases htd : takeDevs d.devs bs1 with
+          cases htd : takeDevsF d.devs bs1 with
           | error e => simp [htd] at h
           | ok q2 =>
             obtain ⟨ds, bs2⟩ := q2
@@ -360,7 +360,7 @@ theorem parseDefinition_consumes (h off : Nat) (bs : List Nat) (r : FitFormat.Re
 
 /-- a decoded record is a non-empty prefix of the input -/
 theorem decodeRecord_suffix (tsKnown : Nat → Bool) (s : DecState) (bs : Bytes) (it : Item) (s' : DecState) (rest : Bytes)
-    (h : decodeRecord tsKnown s bs = .ok (it, s', rest)) : ∃ rec, bs = rec ++ rest ∧ 1 ≤ rec.length := by
+    (h : decodeRecordF tsKnown s bs = .ok (it, s', rest)) : ∃ rec, bs = rec ++ rest ∧ 1 ≤ rec.length := by
   obtain ⟨hd, tl, rfl, hc⟩ := record_spec tsKnown s bs it s' rest h (fun i => (s.lookup i).map payloadLen) (fun _ => rfl) 0
   rcases hc with ⟨_, r, hp, _⟩ | ⟨_, n, _, hn, hd', _⟩
   · obtain ⟨k, hk, hz, _⟩ := parseDefinition_consumes _ _ _ _ _ hp
@@ -369,28 +369,28 @@ theorem decodeRecord_suffix (tsKnown : Nat → Bool) (s : DecState) (bs : Bytes)
 
 /-- the record loop returns a suffix of its input and consumes at least the announced number of bytes -/
 theorem decodeRecords_suffix (tsKnown : Nat → Bool) : ∀ (fuel : Nat) (s : DecState) (n : Nat) (bs : Bytes) (items : List Item) (r : Bytes),
-    decodeRecords tsKnown fuel s n bs = (items, .ok r) → ∃ pre, bs = pre ++ r ∧ n ≤ pre.length := by
+    decodeRecordsF tsKnown fuel s n bs = (items, .ok r) → ∃ pre, bs = pre ++ r ∧ n ≤ pre.length := by
   intro fuel
   induction fuel with
   | zero =>
     intro s n bs items r h
-    simp only [decodeRecords] at h
+    simp only [decodeRecordsF] at h
     by_cases hn : n = 0
     · simp only [hn, if_true] at h; injection h with _ h; injection h with h; exact ⟨[], by simp [h], by omega⟩
     · simp [hn] at h
   | succ fuel ih =>
     intro s n bs items r h
-    simp only [decodeRecords] at h
+    simp only [decodeRecordsF] at h
     by_cases hn : n = 0
     · simp only [hn, if_true] at h; injection h with _ h; injection h with h; exact ⟨[], by simp [h], by omega⟩
     · simp only [hn, if_false] at h
-      cases hd : decodeRecord tsKnown s bs with
+      cases hd : decodeRecordF tsKnown s bs with
       | error e => simp [hd] at h
       | ok p =>
         obtain ⟨it, s', rest1⟩ := p
         simp only [hd] at h
         obtain ⟨rec, hrec, hpos⟩ := decodeRecord_suffix tsKnown s bs it s' rest1 hd
-        generalize hsub : decodeRecords tsKnown fuel s' (n - (bs.length - rest1.length)) rest1 = q at h
+        generalize hsub : decodeRecordsF tsKnown fuel s' (n - (bs.length - rest1.length)) rest1 = q at h
         obtain ⟨its, rr⟩ := q
         simp only at h
         injection h with _ h2
@@ -404,14 +404,14 @@ theorem decodeRecords_suffix (tsKnown : Nat → Bool) : ∀ (fuel : Nat) (s : De
 /-- THE DECODER'S FRAMING REFINES THE SPEC: whenever the decoder's record loop covers `body` exactly, the
 independent framing spec parses `body` into as many records. -/
 theorem records_spec (tsKnown : Nat → Bool) : ∀ (fuel : Nat) (s : DecState) (body rest : Bytes) (items : List Item),
-    decodeRecords tsKnown fuel s body.length (body ++ rest) = (items, .ok rest) →
+    decodeRecordsF tsKnown fuel s body.length (body ++ rest) = (items, .ok rest) →
     ∀ (defs : FitFormat.Defs) (off fuel2 : Nat), Rel s defs → body.length ≤ fuel2 →
     ∃ recs, FitFormat.parseRecords fuel2 defs off body = some recs ∧ recs.length = items.length := by
   intro fuel
   induction fuel with
   | zero =>
     intro s body rest items h defs off fuel2 _ _
-    simp only [decodeRecords] at h
+    simp only [decodeRecordsF] at h
     by_cases hn : body.length = 0
     · have hb : body = [] := List.length_eq_zero_iff.mp hn
       subst hb
@@ -421,7 +421,7 @@ theorem records_spec (tsKnown : Nat → Bool) : ∀ (fuel : Nat) (s : DecState) 
     · simp [hn] at h
   | succ fuel ih =>
     intro s body rest items h defs off fuel2 hrel hfuel
-    simp only [decodeRecords] at h
+    simp only [decodeRecordsF] at h
     by_cases hn : body.length = 0
     · have hb : body = [] := List.length_eq_zero_iff.mp hn
       subst hb
@@ -429,12 +429,12 @@ theorem records_spec (tsKnown : Nat → Bool) : ∀ (fuel : Nat) (s : DecState) 
       injection h with h1 _
       exact ⟨[], by cases fuel2 <;> simp [FitFormat.parseRecords], by simp [← h1]⟩
     · simp only [hn, if_false] at h
-      cases hd : decodeRecord tsKnown s (body ++ rest) with
+      cases hd : decodeRecordF tsKnown s (body ++ rest) with
       | error e => simp [hd] at h
       | ok p =>
         obtain ⟨it, s', rest1⟩ := p
         simp only [hd] at h
-        generalize hsub : decodeRecords tsKnown fuel s' (body.length - ((body ++ rest).length - rest1.length)) rest1 = q at h
+        generalize hsub : decodeRecordsF tsKnown fuel s' (body.length - ((body ++ rest).length - rest1.length)) rest1 = q at h
         obtain ⟨its, rr⟩ := q
         simp only at h
         injection h with h1 h2
@@ -522,7 +522,7 @@ theorem parseSeq_encodeFit (o : Opts) (ho : OptsOK o) (h : Hdr) (ms : List WMsg)
   have hpos := encodeMsgs_pos o (freshEnc o) ms hf.nonempty
   have hsmall := hf.small
   have hmod : (encodeMsgs o (freshEnc o) ms).length % 4294967296 = (encodeMsgs o (freshEnc o) ms).length := Nat.mod_eq_of_lt hsmall
-  obtain ⟨items, hdec, _⟩ := encodeMsgs_roundtrip (fun _ => false) o ho.arch ms (freshEnc o) DecState.fresh hf.msgs
+  obtain ⟨items, hdec, _⟩ := encodeMsgs_roundtripF (fun _ => false) o ho.arch ms (freshEnc o) DecState.fresh hf.msgs
     (DefInv.fresh o.arch o.lruCap ho.capPos ho.cap16 _) ho.cap4
     (fun _ => Or.inl rfl)
     (Wire.le16 (Fit.Crc.write 0 (encodeMsgs o (freshEnc o) ms)) ++ tail) _ (Nat.le_refl _)
